@@ -254,7 +254,18 @@ func (fsm *FSM) Snapshot() (raft.FSMSnapshot, error) {
 	compactionEnd := compactionStart.Add(-1 * exp)
 
 	tmpServer := ircserver.NewIRCServer("testnetwork", time.Now())
-	if oldState, ok := fsm.lastSnapshotState[first-1]; !ok {
+	// The state to start from is the most recent one which was taken before
+	// |first|. Its key is not necessarily first-1: when the previous snapshot
+	// compacted all messages, the index of the next message was not known
+	// yet (raft-internal log entries are not stored in ircstore).
+	var oldKey uint64
+	found := false
+	for key := range fsm.lastSnapshotState {
+		if key < first && (!found || key > oldKey) {
+			oldKey, found = key, true
+		}
+	}
+	if !found {
 		if first == 1 {
 			// This is the first snapshot which this RobustIRC network
 			// is taking, there cannot be previous state.
@@ -263,14 +274,14 @@ func (fsm *FSM) Snapshot() (raft.FSMSnapshot, error) {
 			glog.Errorf("No snapshot state containing index %d found. Unless you just upgraded this node from v0.3, this is a BUG.", first-1)
 		}
 	} else {
-		if _, err := tmpServer.Unmarshal(oldState); err != nil {
+		if _, err := tmpServer.Unmarshal(fsm.lastSnapshotState[oldKey]); err != nil {
 			return nil, err
 		}
-		// All snapshot states but first-1 can now be deleted. first-1
-		// needs to be retained in case the snapshot which is
-		// currently in progress fails and needs to be repeated.
+		// All other snapshot states can now be deleted. oldKey needs to
+		// be retained in case the snapshot which is currently in progress
+		// fails and needs to be repeated.
 		for key, _ := range fsm.lastSnapshotState {
-			if key == first-1 {
+			if key == oldKey {
 				continue
 			}
 			delete(fsm.lastSnapshotState, key)
@@ -321,6 +332,9 @@ func (fsm *FSM) Snapshot() (raft.FSMSnapshot, error) {
 		}
 
 		fsm.applyRobustMessage(&parsed, tmpServer, nil)
+		// tmpServer now includes all messages up to and including i, even
+		// if there is no message left to retain.
+		first = i + 1
 
 		if !fsm.skipDeletionForCanary {
 			// TODO: make the following more efficient, we can whack out the entire range at once.
